@@ -21,7 +21,9 @@ int g_switch_count;                /* number of switches performed by the code u
 int g_in_callback;                 /* 1 while the post-switch callback runs */
 int g_jumped;                      /* a set_context (no return) happened */
 
-static inline void verif_ctx_save(myth_context_t from) { g_ctx_saved = from; }
+/* unit hook: obligations that must hold at the instant the context is saved (defined by the unit, or left without a body) */
+void verif_on_save(myth_context_t from);
+static inline void verif_ctx_save(myth_context_t from) { verif_on_save(from); g_ctx_saved = from; }
 static inline void verif_count_switch(myth_context_t to) { g_switch_to = to; if (g_switch_count < 2) g_switch_count++; }
 /* the suspended thread is resumed arbitrarily later, on any worker: contract supplied by the unit
    (--replace-call-with-contract verif_suspend_resume/<unit's contract>) */
